@@ -13,7 +13,7 @@ AllPrims == {"u8", "i8", "u16", "i16", "u32", "i32", "u64", "i64", "u128", "i128
 LibNames == {"ArcStr", "PathBuf", "ArrayString", "IpAddr", "SocketAddr", "Duration", "SystemTime", "IoError",
              "Canary1", "DateTimeUtc", "BitVec", "BitSet", "BitVec08", "BitSet08",
              "AtomicBool", "AtomicU8", "AtomicI8", "AtomicU16", "AtomicI16", "AtomicU32", "AtomicI32",
-             "AtomicU64", "AtomicI64", "AtomicUsize", "AtomicIsize", "PhantomData"}
+             "AtomicU64", "AtomicI64", "AtomicUsize", "AtomicIsize", "PhantomData", "RecTree", "RecList"}
 Leaves == {P(n) : n \in AllPrims} \cup {Str} \cup {Lib(n) : n \in LibNames}
 
 Key6  == {P("u8"), P("u16"), P("u32"), P("u64"), P("bool"), Str}
